@@ -10,6 +10,8 @@ open AmcVerif
 structure VSt where
   cfg : Cfg
   pool : Nat
+  cfg2 : Cfg := { flavour := .std, n := 0, ops := Gen.U32.dvbOps }
+  pool2 : Nat := 0
   mem : Mem Nat
   halted : Bool := false     -- a fault happened: the model state is meaningless until `new`
 
@@ -26,11 +28,15 @@ def kv (toks : List String) (key : String) : Option String :=
     | [k, v] => if k == key then some v else none
     | _ => none
 
-def freshMem (cfg : Cfg) (pool : Nat) (cat : Cat) (hasRealloc : Bool) : Mem Nat :=
-  let inlLen := if cfg.flavour == .std then 0 else cfg.n
-  { ws := List.replicate pool (cfg.ops.ctor cfg.n),
-    inls := List.replicate pool (rawBuf inlLen),
+def inlLenOf (cfg : Cfg) : Nat := if cfg.flavour == .std then 0 else cfg.n
+
+def freshMem2 (cfg : Cfg) (pool : Nat) (cfg2 : Cfg) (pool2 : Nat) (cat : Cat) (hasRealloc : Bool) : Mem Nat :=
+  { ws := List.replicate pool (cfg.ops.ctor cfg.n) ++ List.replicate pool2 (cfg2.ops.ctor cfg2.n),
+    inls := List.replicate pool (rawBuf (inlLenOf cfg)) ++ List.replicate pool2 (rawBuf (inlLenOf cfg2)),
     blocks := [], cat := cat, hasRealloc := hasRealloc }
+
+def freshMem (cfg : Cfg) (pool : Nat) (cat : Cat) (hasRealloc : Bool) : Mem Nat :=
+  freshMem2 cfg pool cfg 0 cat hasRealloc
 
 def parseCfg (toks : List String) : Option VSt := do
   let fl ← match ← kv toks "fl" with
@@ -48,8 +54,18 @@ def parseCfg (toks : List String) : Option VSt := do
   let realloc := (kv toks "realloc").getD "1" == "1"
   let pool := ((kv toks "pool").bind String.toNat?).getD 3
   let checked := (kv toks "checked").getD "1" == "1"
-  let cfg : Cfg := { flavour := fl, n := n, ops := ops, checked := checked }
-  pure { cfg := cfg, pool := pool, mem := freshMem cfg pool cat realloc }
+  let allocId := if realloc then 0 else 1
+  let cfg : Cfg := { flavour := fl, n := n, ops := ops, checked := checked, allocId := allocId }
+  -- optional partner configuration (swap2): fl2= n2= st2= realloc2= pool2=
+  let pool2 := ((kv toks "pool2").bind String.toNat?).getD 0
+  let cfg2 : Cfg := (do
+    let fl2 ← match ← kv toks "fl2" with
+      | "small" => some Flavour.small | "std" => some Flavour.std | "fixed" => some Flavour.fixed | _ => none
+    let n2 ← (← kv toks "n2").toNat?
+    let ops2 ← opsFor fl2 (← kv toks "st2")
+    let r2 := (kv toks "realloc2").getD "1" == "1"
+    pure ({ flavour := fl2, n := n2, ops := ops2, allocId := if r2 then 0 else 1 } : Cfg)).getD cfg
+  pure { cfg := cfg, pool := pool, cfg2 := cfg2, pool2 := pool2, mem := freshMem2 cfg pool cfg2 pool2 cat realloc }
 
 def excName : Exc → String
   | .overflow => "overflow" | .outOfRange => "range" | .badAlloc => "alloc" | .elem => "elem"
@@ -75,8 +91,10 @@ def showCont (s : VSt) (c : Nat) : String :=
   | .error (.fault f) => s!"!{repr f}"
   | .error (.exc _) => "!exc"
 
+def showCont2 (s : VSt) (c : Nat) : String := showCont { s with cfg := s.cfg2 } c
+
 def showState (s : VSt) : String :=
-  let conts := (List.range s.pool).map (showCont s)
+  let conts := (List.range s.pool).map (showCont s) ++ (List.range s.pool2).map (fun d => showCont2 s (s.pool + d))
   let ev := s.mem.ev
   let live := if s.mem.cat == .tc then "-" else toString (aliveCount s.mem)
   " | " ++ " | ".intercalate conts ++ s!" | al={ev.al},{ev.de},{ev.re} blocks={s.mem.blocks.length} live={live}"
@@ -111,11 +129,23 @@ def step (s : VSt) (toks : List String) : String × VSt :=
     -- destroy every container, report what is left, start afresh
     let act : M Nat String := do
       for c in List.range s.pool do destruct cfg c
+      for d in List.range s.pool2 do destruct s.cfg2 (s.pool + d)
       let m ← get
       pure s!"blocks={m.blocks.length},live={if m.cat == .tc then 0 else aliveCount m}"
     let (r, s') := runOp s act
-    (r, { s' with mem := { freshMem cfg s.pool s.mem.cat s.mem.hasRealloc with ev := s'.mem.ev }, halted := false })
-  | ["thr", k] => ("ok ret=-", { s with mem := { s.mem with fuel := some (nat k) } })
+    (r, { s' with mem := { freshMem2 cfg s.pool s.cfg2 s.pool2 s.mem.cat s.mem.hasRealloc with ev := s'.mem.ev }, halted := false })
+  | ["thr", k] => ("ok ret=-", { s with mem := { s.mem with fuel := some (nat k), ev := {} } })
+  | ["sw2", c, d] => if s.halted then ("halted ret=-", s) else runOp s (unit (swap2 cfg s.cfg2 (nat c) (s.pool + nat d)))
+  | ["push2", d, v] => if s.halted then ("halted ret=-", s) else runOp s (unit (pushBackCopy s.cfg2 (s.pool + nat d) (.lit (nat v))))
+  | ["apr2", d, vs] => if s.halted then ("halted ret=-", s) else runOp s (unit (appendRange s.cfg2 (s.pool + nat d) (natList vs)))
+  | ["rsv2", d, k] => if s.halted then ("halted ret=-", s) else runOp s (unit (reserve s.cfg2 (s.pool + nat d) (nat k % (s.cfg2.ops.kMax + 1))))
+  | ["shr2", d] => if s.halted then ("halted ret=-", s) else runOp s (unit (shrinkToFit s.cfg2 (s.pool + nat d)))
+  | ["clr2", d] => if s.halted then ("halted ret=-", s) else runOp s (unit (clear s.cfg2 (s.pool + nat d)))
+  | ["pop2", d] => if s.halted then ("halted ret=-", s) else
+      (match s.mem.ws[s.pool + nat d]? with
+       | some w => if s.cfg2.ops.size w == 0 then ("skip ret=-", { s with mem := { s.mem with fuel := none, ev := {} } })
+                   else runOp s (unit (popBack s.cfg2 (s.pool + nat d)))
+       | none => ("bad-op ret=-", s))
   | op :: c :: rest =>
     let c := nat c
     let sz := szOf c
@@ -164,7 +194,15 @@ def step (s : VSt) (toks : List String) : String × VSt :=
     | "cpy", [d] => runOp s (unit (copyAssign cfg c (nat d)))
     | "mov", [d] => runOp s (unit (moveAssign cfg c (nat d)))
     | "swp", [d] => if c == nat d then skip else runOp s (unit (swapSame cfg c (nat d)))
-    | "cct", [d] => if c == nat d then skip else runOp s (unit do destruct cfg c; copyConstruct cfg c (nat d))
+    | "cct", [d] => if c == nat d then skip else runOp s (unit do
+        destruct cfg c
+        -- a constructor that throws runs the destructors of its (fully constructed) base classes; the harness then
+        -- puts a fresh empty vector into the slot
+        tryCatch (copyConstruct cfg c (nat d)) fun st => do
+          match st with
+          | .exc _ => destruct cfg c; construct cfg c
+          | .fault _ => pure ()
+          throw st)
     | "mct", [d] => if c == nat d then skip else runOp s (unit do destruct cfg c; moveConstruct cfg c (nat d))
     | "at", [i] => runOp s (do
         if cnt i ≥ (← vsize cfg c) then raise .outOfRange
